@@ -41,7 +41,7 @@ def gen_case(rng, tier, i):
         kw['glass_p'] = 0.0
         kw['nwl'] = (2, 3)
     elif rel == 'scale_system':
-        kw.update(asphere_p=0.0, field_types=('angle',), ap_kinds=('EPD', 'imageFNO'))
+        kw.update(asphere_p=0.0, field_types=('angle',), ap_kinds=('EPD', 'imageFNO', 'objectNA'))   # (an NA is scale-free)
     elif rel == 'tilt':
         kw.update(conic_p=0.15)
     else:
